@@ -2,17 +2,19 @@ import ErrModel.Proofs.Is
 import ErrModel.Proofs.RoundTrip
 set_option linter.unusedSimpArgs false
 /-
-  `Is` depends on the candidate only through its labelled shape (identity aside):
-  so whatever preserves the labelled shape — a network hop — preserves `Is`.
+  `Is` depends on the candidate only through its labelled shape vf (identity aside):
+  so whatever preserves the labelled shape vf — a network hop — preserves `Is`.
 -/
 namespace ErrModel
+
+variable (vf : Err → Str)
 
 def TTree.lbl : TTree → Lbl
   | .node l _ => l
 def TTree.kids : TTree → List TTree
   | .node _ k => k
 
-/-- the type marks along the single-cause chain, read off the labelled shape -/
+/-- the type marks along the single-cause chain, read off the labelled shape vf -/
 def chainTysT : TTree → List TMark
   | .node l [k] => l.tmark :: (if l.multi then [] else chainTysT k)
   | .node l _ => [l.tmark]
@@ -44,21 +46,21 @@ end
 def isT (rm : Mark) (r : Err) (t : TTree) : Bool :=
   (reachT t).any (fun n => isMethodL n.lbl r || markEquiv (markT n) rm)
 
-theorem chainTys_shape : (e : Err) → chainTysT (shape e) = (chain e).map (typeMark Full)
+theorem chainTys_shape : (e : Err) → chainTysT (shape vf e) = (chain e).map (typeMark Full)
   | .leaf id k => by simp [shape, chainTysT, chain, label, isMultiNode]
   | .barrier id m h => by simp [shape, chainTysT, chain, label, isMultiNode]
   | .wrap id k c => by simp [shape, chainTysT, chain, label, isMultiNode, chainTys_shape c]
   | .second id c s => by simp [shape, chainTysT, chain, label, isMultiNode, chainTys_shape c]
   | .multi id k cs => by
     simp only [shape, chain, label, isMultiNode, List.map]
-    cases hcs : shapeL cs with
+    cases hcs : shapeL vf cs with
     | nil => simp [chainTysT]
     | cons a r => cases r <;> simp [chainTysT]
 
-theorem shape_lbl (e : Err) : (shape e).lbl = label e := by
+theorem shape_lbl (e : Err) : (shape vf e).lbl = label vf e := by
   cases e <;> simp [shape, TTree.lbl]
 
-theorem markT_shape (e : Err) : markT (shape e) = getMark Full e := by
+theorem markT_shape (e : Err) : markT (shape vf e) = getMark Full e := by
   unfold markT
   rw [shape_lbl]
   cases e with
@@ -66,7 +68,7 @@ theorem markT_shape (e : Err) : markT (shape e) = getMark Full e := by
     cases k <;> simp [label, storedMark, getMark, chainTys_shape]
   | _ => simp [label, storedMark, getMark, chainTys_shape]
 
-theorem isMethodL_label (e r : Err) : isMethodL (label e) r = isMethod e r := by
+theorem isMethodL_label (e r : Err) : isMethodL (label vf e) r = isMethod e r := by
   cases e with
   | leaf id k =>
     cases k with
@@ -79,13 +81,13 @@ theorem isMethodL_label (e r : Err) : isMethodL (label e) r = isMethod e r := by
   | _ => simp [isMethodL, label, isSigOf, stSigOf, isMethod]
 
 mutual
-theorem reachT_shape : (e : Err) → reachT (shape e) = (reach e).map shape
+theorem reachT_shape : (e : Err) → reachT (shape vf e) = (reach e).map (shape vf)
   | .leaf id k => by simp [shape, reachT, reachTL, reach]
   | .barrier id m h => by simp [shape, reachT, reachTL, reach]
   | .wrap id k c => by simp [shape, reachT, reachTL, reach, reachT_shape c]
   | .second id c s => by simp [shape, reachT, reachTL, reach, reachT_shape c]
   | .multi id k cs => by simp [shape, reachT, reach, reachTL_shape cs]
-theorem reachTL_shape : (cs : List Err) → reachTL (shapeL cs) = (reachL cs).map shape
+theorem reachTL_shape : (cs : List Err) → reachTL (shapeL vf cs) = (reachL cs).map (shape vf)
   | [] => by simp [shapeL, reachTL, reachL]
   | e :: r => by simp [shapeL, reachTL, reachL, reachT_shape e, reachTL_shape r]
 end
@@ -94,7 +96,7 @@ end
 def isNoId (e r : Err) : Bool :=
   (reach e).any (fun n => isMethod n r || markEquiv (getMark Full n) (getMark Full r))
 
-theorem isNoId_eq_isT (e r : Err) : isNoId e r = isT (getMark Full r) r (shape e) := by
+theorem isNoId_eq_isT (e r : Err) : isNoId e r = isT (getMark Full r) r (shape vf e) := by
   unfold isNoId isT
   rw [reachT_shape, List.any_map]
   congr 1
@@ -120,13 +122,13 @@ theorem isB_eq_isNoId (e r : Err) (h : NoIdMatch e r) : isB Full e r = isNoId e 
     · exact ⟨n, hn, Or.inl (Or.inr hm)⟩
     · exact ⟨n, hn, Or.inr hq⟩
 
-/-- errors with the same labelled shape are matched by the same references -/
-theorem isB_congr_shape (e e' r : Err) (hs : shape e' = shape e)
+/-- errors with the same labelled shape vf are matched by the same references -/
+theorem isB_congr_shape (e e' r : Err) (hs : shape vf e' = shape vf e)
     (h : NoIdMatch e r) (h' : NoIdMatch e' r) : isB Full e' r = isB Full e r := by
   rw [isB_eq_isNoId e r h, isB_eq_isNoId e' r h', isNoId_eq_isT, isNoId_eq_isT, hs]
 
 /-- the reference enters `Is` through its mark and, for Is methods, its identity -/
-theorem getMark_congr_shape (r r' : Err) (hs : shape r' = shape r) : getMark Full r' = getMark Full r := by
+theorem getMark_congr_shape (r r' : Err) (hs : shape vf r' = shape vf r) : getMark Full r' = getMark Full r := by
   rw [← markT_shape, ← markT_shape, hs]
 
 end ErrModel
